@@ -149,7 +149,8 @@ class CustomGateDef:
         """Return a new tree with parameter indices replaced with values."""
         if isinstance(exp, lark.Token):
             if exp.type == 'PARAM_IDX':
-                return lark.Token('REAL', params[int(exp)])
+                # Parenthesized so a negative value keeps its sign as a base
+                return lark.Token('REAL', f'({params[int(exp)]})')
             else:
                 return exp
         children = [self.replace_param_indices(c, params) for c in exp.children]
@@ -728,6 +729,7 @@ eval_locals = {
     'tan': np.tan,
     'ln': np.log,
     'exp': np.exp,
+    'sqrt': np.sqrt,
 }
 
 
@@ -742,6 +744,9 @@ def eval_exp_recurse(tree: lark.Tree) -> Any:
         if op.data == 'unaryexp':
             unaryop = op.children[0]
             code += f'{unaryop.children[0]}({eval_exp_recurse(op.children[1])})'
+            continue
+        elif op.data == 'parenexp':
+            code += f'({eval_exp_recurse(op.children[0])})'
             continue
         elif op.data == 'usub':
             code += '-'
